@@ -10,6 +10,9 @@ sd = os.path.join(wt, 'seeded', k)
 m = json.load(open(os.path.join(sd, 'meta.json')))
 demo = m['demo']
 if isinstance(demo, list): demo = ' && '.join(demo)
+# free-form remarks after the command: '   (package trie ...)' or ' # comment'
+demo = re.sub(r'\s{2,}\(.*$', '', demo, flags=re.S)
+demo = re.sub(r'\s+#\s.*$', '', demo, flags=re.S)
 def sh(cmd, timeout=1500):
     p = subprocess.run(['bash', '-c', cmd], cwd=wt, env=env, capture_output=True, text=True, timeout=timeout)
     return p.returncode, p.stdout + p.stderr
